@@ -17,6 +17,30 @@ CHECKS = {
     ),
 }
 
+CHECKS.update(
+    C01=dict(
+        text="Bounded model checking of the real dimensional-analysis code with symbolic integer exponents: 'conversion succeeds' and every compatibility "
+        "predicate are proved equivalent to equality of base-dimension vectors (independent reader) for all exponent values in [-2,2] (thorough [-3,3]) "
+        "and all magnitudes, on compound units of the default registry and on generated registries whose definition exponents are symbolic too; "
+        "plus seeded/all ordered unit pairs with a symbolic magnitude.",
+        note="hash_mode=const stub (UnitsContainer hashes over its key set) keeps exponents symbolic; sound under the hash contract. Exponent range and unit tuples are bounds. float/Decimal/case-insensitive/auto-reduce configurations outside.",
+        design="4/C01",
+    ),
+    C02=dict(
+        text="For every unit spelling of the bundled files, prefix x unit strings, same-dimension pairs and generated definition files with symbolic scales, "
+        "the real conversion code is run on a symbolic magnitude and the result is proved (z3) equal to x times the exact factor from an independent reader, for every rational x "
+        "(and every non-zero scale/prefix value in generated registries); identity, round trip, swapped cache key and path independence included.",
+        note="Exact rational arithmetic only; the float few-ulp clause and Decimal are outside; units with non-integer powers in their factor are compared by root units only.",
+        design="4/C02",
+    ),
+    C20=dict(
+        text="Every entry of an independently written table of standard values (about 230 units/constants, 32 prefixes, 5 temperature scales) is compared with the real registry "
+        "for all magnitudes x (linear/affine map proved by z3), plus symbol and dimensionality. The solver's role is small; the strength is the independent table.",
+        note="Trusts the transcription of the standards in pvlib/ref/stdtable.py; exact arithmetic; float registry clause outside.",
+        design="4/C20",
+    ),
+)
+
 PENDING = {
     # id: reason (kept current while the framework is being built)
 }
